@@ -11,7 +11,8 @@ def run(R):
     P = R.P
     R.ob('C12.MPT.1', 'every pattern-edge traversal (also for a pattern bound while matching the packet) evaluates the edge\'s constraints')
     R.ob('C12.MPT.4', 'a pattern bound by the packet match only matches an equal component of the key name')
-    match_rules(R, {'MPT.3': 'C12.MPT.1', 'MPT.4': 'C12.MPT.4'})
+    R.ob('C12.TBL.1', 'every named pattern (tags 1..named_pattern_cnt) bound by the packet match is carried into the key match')
+    match_rules(R, {'MPT.3': 'C12.MPT.1', 'MPT.4': 'C12.MPT.4', 'TBL.1c': 'C12.TBL.1'})
     ck = ctx(R, CK + '.Checker.check')
     R.ob('C12.PRV.1', 'check(): the key name is matched under the bindings of the packet match; yes only if the key node is a signer of the packet node')
     loops = [n for n in ck.cfg.nodes if n.kind == 'for' and isinstance(n.ast.iter, ast.Call) and callee_attr(n.ast.iter) == '_match']
@@ -109,7 +110,13 @@ def run(R):
           [n for (n, c) in calls_in_ctx(gn, attr='append') if ast.unparse(c.func.value) == 'self.rule_node_ids[rc.id]']
     endt = [t for t in gn.cfg.nodes if t.kind == 'test' and ast.unparse(t.ast) in ('depth == len(rc.name)', 'len(rc.name) == depth')]
     sc = [c for (n, c) in calls_in_ctx(gn, attr='extend') if ast.unparse(c.func.value) == 'node.sign_cons' and ast.unparse(c.args[0]) == 'rc.sign_cons']
-    if len(rec) == 2 and len(endt) == 1 and sc and all(r.id not in gn.cfg.reachable(removed_edges={(endt[0].id, True)}) for r in rec):
+    scn = [n for (n, c) in calls_in_ctx(gn, attr='extend') if ast.unparse(c.func.value) == 'node.sign_cons' and ast.unparse(c.args[0]) == 'rc.sign_cons']
+    unconditional = False
+    if len(endt) == 1 and scn:
+        lp = [n for n in gn.cfg.nodes if n.kind == 'for' and any(x is endt[0].ast for x in ast.walk(n.ast))]
+        # every chain ending here contributes its signers: the next iteration cannot be reached without passing the extend
+        unconditional = bool(lp) and lp[0].id not in reach_from_succ(gn.cfg, endt[0], True, removed_nodes={scn[0].id}, follow_exc=False)
+    if len(rec) == 2 and len(endt) == 1 and sc and unconditional and all(r.id not in gn.cfg.reachable(removed_edges={(endt[0].id, True)}) for r in rec):
         R.ok('C12.GRD.1', inst, site(gn, endt[0].ast))
     else:
         R.fail('C12.GRD.1', inst, gn.qual, endt[0].ast if endt else 'def _generate_node', 'nodes where a rule ends are not all recorded / do not inherit the rule\'s signers',
